@@ -12,20 +12,20 @@ namespace RRule
 inductive Family where
   | daily | weekly | yearlyMonthly | monthlyNth | yearlyNth | yearlyBymonthNth | yearlyEaster | yearlyWeekno
   | monthlyWeekno
-  | hourly | hourlyByhour | minutely | minutelyByminute | minutelyByhour | secondly | secondlyByhm | secondlyBysecond
+  | hourly | hourlyByhour | minutely | minutelyByminute | minutelyByhour | minutelyByhm | secondly | secondlyByhm | secondlyBysecond
   deriving Repr, DecidableEq, Inhabited
 
 def Family.name : Family → String
   | .daily => "daily" | .weekly => "weekly" | .yearlyMonthly => "yearly_monthly" | .monthlyNth => "monthly_nth"
   | .yearlyNth => "yearly_nth" | .yearlyBymonthNth => "yearly_bymonth_nth" | .yearlyEaster => "yearly_easter"
   | .yearlyWeekno => "yearly_weekno" | .monthlyWeekno => "monthly_weekno" | .hourly => "hourly" | .hourlyByhour => "hourly_byhour"
-  | .minutely => "minutely" | .minutelyByminute => "minutely_byminute" | .minutelyByhour => "minutely_byhour" | .secondly => "secondly"
+  | .minutely => "minutely" | .minutelyByminute => "minutely_byminute" | .minutelyByhour => "minutely_byhour" | .minutelyByhm => "minutely_byhour_byminute" | .secondly => "secondly"
   | .secondlyByhm => "secondly_byhour_byminute" | .secondlyBysecond => "secondly_bysecond"
 
 def Family.all : List Family :=
   [.daily, .weekly, .yearlyMonthly, .monthlyNth, .yearlyNth, .yearlyBymonthNth, .yearlyEaster, .yearlyWeekno,
    .monthlyWeekno,
-   .hourly, .hourlyByhour, .minutely, .minutelyByminute, .minutelyByhour, .secondly, .secondlyByhm, .secondlyBysecond]
+   .hourly, .hourlyByhour, .minutely, .minutelyByminute, .minutelyByhour, .minutelyByhm, .secondly, .secondlyByhm, .secondlyBysecond]
 
 /-- the optional list is given, non-empty, and satisfies `P` -/
 def someWith {α} (o : Option (List α)) (P : List α → Prop) : Prop :=
@@ -108,6 +108,14 @@ def reachableSS (a : Args) : Prop :=
       (((a.dtstart.hh * 60 + a.dtstart.mm) * 60 + a.dtstart.ss + (j : Int) * a.interval) % 60)) = true
 instance (a : Args) : Decidable (reachableSS a) := by unfold reachableSS; exact inferInstance
 
+/-- MINUTELY with BYMINUTE (BYHOUR optional): some minute of the grid (orbit of the start under `+INTERVAL`, which repeats
+    after at most 1440 steps) has a listed hour and a listed minute -/
+def reachableMM (a : Args) : Prop :=
+  (List.range 1440).any (fun j =>
+    listedO a.byhour ((a.dtstart.hh * 60 + a.dtstart.mm + (j : Int) * a.interval) / 60 % 24) &&
+    listedO a.byminute ((a.dtstart.hh * 60 + a.dtstart.mm + (j : Int) * a.interval) % 60)) = true
+instance (a : Args) : Decidable (reachableMM a) := by unfold reachableMM; exact inferInstance
+
 /-- a BY list is absent or given and non-empty -/
 def optNonempty (o : Option (List Int)) : Prop := o = none ∨ someWith o (fun _ => True)
 instance (o : Option (List Int)) : Decidable (optNonempty o) := by unfold optNonempty; exact inferInstance
@@ -139,6 +147,8 @@ def SupportedBy (a : Args) : Family → Prop
       someWith a.byminute (fun l => ∀ x ∈ l, 0 ≤ x ∧ x ≤ 59) ∧ secondsOk a
   | .minutelyByhour => a.freq = 5 ∧ baseOk a ∧ wArgOk a ∧ a.byeaster = none ∧
       someWith a.byhour (fun _ => True) ∧ a.byminute = none ∧ secondsOk a ∧ reachableHourM a
+  | .minutelyByhm => a.freq = 5 ∧ baseOk a ∧ wArgOk a ∧ a.byeaster = none ∧ optNonempty a.byhour ∧
+      a.byminute ≠ none ∧ secondsOk a ∧ reachableMM a
   | .secondly => a.freq = 6 ∧ baseOk a ∧ wArgOk a ∧ a.byeaster = none ∧ a.byhour = none ∧
       a.byminute = none ∧ a.bysecond = none
   | .secondlyByhm => a.freq = 6 ∧ baseOk a ∧ wArgOk a ∧ a.byeaster = none ∧ optNonempty a.byhour ∧
@@ -157,7 +167,7 @@ def Supported (a : Args) : Prop := ∃ f, SupportedBy a f
 
 /-- how many periods of the specification `n` turns of the generator's loop may correspond to -/
 def Family.periodsPerTurn : Family → Nat
-  | .hourly => 24 | .hourlyByhour => 48 | .minutely => 1440 | .minutelyByminute => 1500 | .minutelyByhour => 2880 | .secondly => 86400
+  | .hourly => 24 | .hourlyByhour => 48 | .minutely => 1440 | .minutelyByminute => 1500 | .minutelyByhour => 2880 | .minutelyByhm => 2880 | .secondly => 86400
   | .secondlyByhm => 172800 | .secondlyBysecond => 172800 | _ => 1
 
 /-- the first `n` turns stay inside datetime's range (for BYEASTER: inside 1583..4099) -/
@@ -178,7 +188,7 @@ def inRange (a : Args) (f : Family) (n : Nat) : Prop :=
   | .minutelyByminute =>
       (Spec.RRule.startOrd a * 24 + a.dtstart.hh) * 60 + a.dtstart.mm + (1500 * n + 60) * a.interval + 1439 <
       (Cal.maxOrdinal + 1) * 1440
-  | .minutelyByhour =>
+  | .minutelyByhour | .minutelyByhm =>
       (Spec.RRule.startOrd a * 24 + a.dtstart.hh) * 60 + a.dtstart.mm + (2880 * n + 1440) * a.interval + 1439 <
       (Cal.maxOrdinal + 1) * 1440
   | .secondly => ((Spec.RRule.startOrd a * 24 + a.dtstart.hh) * 60 + a.dtstart.mm) * 60 + a.dtstart.ss +
